@@ -71,6 +71,9 @@ pub enum Job {
     /// (S_1..S_w) over `alpha`^w: drives the decoder through its singular cases (leading zero
     /// syndromes, geometric syndrome sequences) while staying within the correction capacity
     SyndromePrefix { si: usize, base: Base, block: usize, positions: Vec<usize>, alpha: Vec<u8> },
+    /// v real errors (v = 1, 2 < t) plus a pattern whose first t + v syndromes vanish: a decoder
+    /// that stops with a short locator must still look at the remaining syndromes
+    ErrorsPlusZeroPrefix { si: usize, base: Base, block: usize },
     /// "phantom" errors: the syndromes of errors at locations n..=254 outside the shortened block
     /// (c + v * (x^j mod g) in the EC part), alone, in pairs, and together with one real error
     Phantom { si: usize, base: Base, block: usize },
@@ -346,6 +349,50 @@ pub fn expand(job: &Job, f: &mut dyn FnMut(&[u8], &[u8], CaseInfo)) {
                     r[g] = orig[g] ^ e;
                 }
                 f(&orig, &r, CaseInfo { max_block_weight: w });
+            }
+        }
+        Job::ErrorsPlusZeroPrefix { si, base, block } => {
+            let sy = &SYMBOLS[*si];
+            let k = sy.ec_per_block();
+            let t = k / 2;
+            let idx = blk_idx(sy, *block);
+            let n = idx.len();
+            let orig = base_codeword(*si, *base);
+            for v in 1..=2usize {
+                if v >= t || t + v >= k {
+                    continue;
+                }
+                let p = partial_generator(t + v); // roots 2^1..2^(t+v)
+                let deg = t + v;
+                if deg > n - 1 {
+                    continue;
+                }
+                let smax = n - 1 - deg;
+                let mut shifts = vec![0, smax / 2, smax];
+                shifts.dedup();
+                for s in shifts {
+                    for m in V2 {
+                        let mut d = orig.clone();
+                        for (q, c) in p.iter().enumerate() {
+                            d[idx[n - 1 - (s + deg) + q]] ^= gf::mul(*c, m);
+                        }
+                        // v errors at a few position sets
+                        let sets: Vec<Vec<usize>> = if v == 1 {
+                            vec![vec![0], vec![n / 2], vec![n - 1], vec![n - k]]
+                        } else {
+                            vec![vec![0, 1], vec![0, n - 1], vec![n / 3, 2 * n / 3], vec![n - k - 1, n - k]]
+                        };
+                        for ps in sets {
+                            for e in V2 {
+                                let mut r = d.clone();
+                                for (a, pos) in ps.iter().enumerate() {
+                                    r[idx[*pos]] ^= if a == 0 { e } else { 0x53 };
+                                }
+                                f(&orig, &r, CaseInfo { max_block_weight: usize::MAX });
+                            }
+                        }
+                    }
+                }
             }
         }
         Job::Phantom { si, base, block } => {
